@@ -88,7 +88,12 @@ func c07Valset() *Valset {
 // c07Sigs: k collected signatures (arbitrary bytes) by the first k members.
 func c07Sigs(k int) []*consensustypes.SignData {
 	var out []*consensustypes.SignData
-	for i := 0; i < k; i++ {
+	// signatures arrive in any order, not necessarily that of the valset
+	order := []int{0, 1, 2}
+	if k > 1 && sym.Bool("collected-out-of-valset-order") {
+		order = []int{1, 0, 2}
+	}
+	for _, i := range order[:k] {
 		sig := sym.Bytes("sig", 65)
 		sym.Assume(sig[64] <= 1)
 		out = append(out, &consensustypes.SignData{ValAddress: []byte{byte(i)}, Signature: sig, ExternalAccountAddress: c07Vals[i]})
